@@ -1,5 +1,5 @@
 // govc:pkg window
-// govc:bound grouping tuples of arity 1..3 over one scalar type per column: strings from a pool with separator-like characters ('|', ',', unit separator, backslash, NUL, the NULL markers), NULL and missing (19^2 / 10^3 tuples), and small integers; all pairs of tuples compared
+// govc:bound grouping tuples of arity 1..3 over one scalar type per column: strings from a pool with separator-like characters ('|', ',', unit separator, backslash, NUL, the NULL markers), NULL and missing (22^2 / 11^3 tuples), and small integers; all pairs of tuples compared
 // Bounded stand-in (NOT a proof): the key derivation of counting, session and global windows: two rows get the same key iff their grouping tuples are equal.
 package window
 
@@ -104,9 +104,9 @@ var govcCols = []string{"k1", "k2", "k3"}
 
 // pools: arity 1 and 2 use the large pool, arity 3 a smaller one (all with separator-like characters, NULL and missing)
 var govcStrPools = [][]govcVal{
-	govcStr("", "a", "b", "|", "a|", "|a", "\x1f", "a\x1f", "\x1fa", "\\", "\\|", "|\\", "\x00NULL", "\x00", "<nil>", ",", "a,b"),
-	govcStr("", "a", "b", "|", "a|", "|a", "\x1f", "a\x1f", "\x1fa", "\\", "\\|", "|\\", "\x00NULL", "\x00", "<nil>", ",", "a,b"),
-	govcStr("", "a", "|", "a|", "|a", "\x1f", "\\", "\x00NULL"),
+	govcStr("", "a", "b", "|", "a|", "|a", "\x1f", "a\x1f", "\x1fa", "\\", "\\|", "|\\", "\x00NULL", "\x00", "<nil>", ",", "a,b", "\\N", "\\\\N", "N"),
+	govcStr("", "a", "b", "|", "a|", "|a", "\x1f", "a\x1f", "\x1fa", "\\", "\\|", "|\\", "\x00NULL", "\x00", "<nil>", ",", "a,b", "\\N", "\\\\N", "N"),
+	govcStr("", "a", "|", "a|", "|a", "\x1f", "\\", "\x00NULL", "\\N"),
 }
 var govcNumPools = [][]govcVal{
 	{{missing: true}, {v: 0}, {v: 1}, {v: -1}, {v: 10}, {v: 12}, {v: 2}, {v: 3}, {v: 23}, {v: 123}},
